@@ -26,8 +26,9 @@ from harness.evidence import Verdict
 PID = 'C07'
 SCALE = 65536
 PAIRS = {'WorkII': ('IterA', 'IterB'), 'WorkIA': ('IterA', 'ArrB'), 'WorkAA': ('ArrA', 'ArrB'),
-         'WorkIP': ('IterB', 'Plain'), 'WorkAP': ('ArrA', 'Plain')}
-MUST_BREAK_WHEN_SHARED = {'WorkII', 'WorkIA', 'WorkAA', 'WorkAP'}
+         'WorkIP': ('IterB', 'Plain'), 'WorkAP': ('ArrA', 'Plain'),
+         'WorkRR': ('RefA', 'RefB'), 'WorkRA': ('RefA', 'ArrB')}
+MUST_BREAK_WHEN_SHARED = {'WorkII', 'WorkIA', 'WorkAA', 'WorkAP', 'WorkRA'}
 
 
 # ---- the workloads on the real code -----------------------------------------
@@ -59,11 +60,14 @@ def build(kind):
         return m, lambda: m.evaluate('S!C1')
     if kind in ('RefA', 'RefB'):   # library functions which receive references
         b = 1 if kind == 'RefA' else 10
-        m = xl.compile_wb({'A1': b, 'A2': 2 * b, 'A3': 3 * b,
+        m = xl.compile_wb({'A1': b, 'A2': 2 * b, 'A3': 3 * b, 'D1': '=A1+1',
+                           # Threads.tla "ref": D1 is evaluated between the loading of
+                           # CELL and its call
+                           'E1': '=D1+CELL("contents",OFFSET(A1,0,0))',
                            'C1': '=ROUND(OFFSET(A1,2,0),0)+1',
                            'C2': '=INDEX(OFFSET(A1,0,0,3,1),2)+SUM(INDIRECT("A1:A2"))',
                            'C3': '=MATCH(A2,OFFSET(A1,0,0,3,1),0)*A3'})
-        return m, lambda: m.evaluate(['S!C1', 'S!C2', 'S!C3'])
+        return m, lambda: m.evaluate(['S!E1', 'S!C1', 'S!C2', 'S!C3'])
     if kind == 'SetEval':    # set_value then evaluate on an iterative model
         m = xl.compile_wb({'A1': 1, 'B1': '=A1+1', 'C1': '=SUM(A1:B1)'}, cycles=cy)
         m.evaluate('S!C1')
@@ -341,15 +345,16 @@ def fresh_thread_ops():
 
 
 def tlc_job(arg):
-    work, shared = arg
+    work, shared = arg[:2]
+    metaread = arg[2] if len(arg) > 2 else 'FALSE'
     d = tlc.new_scratch('thr')
     cfg = os.path.join(d, 't.cfg')
     with open(cfg, 'w') as f:
-        f.write(f'CONSTANTS\n Thr <- MCThr\n Work <- {work}\n SHARED = {shared}\n'
-                'SPECIFICATION Spec\nINVARIANT Isolation\nINVARIANT StackBalanced\n'
+        f.write(f'CONSTANTS\n Thr <- MCThr\n Work <- {work}\n SHARED = {shared}\n METAREAD = {metaread}\n'
+                'SPECIFICATION Spec\nINVARIANT Isolation\nINVARIANT StackBalanced\nINVARIANT CallingBalanced\n'
                 'INVARIANT ExportSolo\n')
     res = tlc.run('MC_Threads', cfg, workers=1, timeout=600)
-    return dict(work=work, shared=shared, rc=res.rc, violated=res.violated,
+    return dict(work=work, shared=shared, metaread=metaread, rc=res.rc, violated=res.violated,
                 distinct=res.distinct, generated=res.generated, depth=res.depth,
                 wall=round(res.wall, 2), json=res.json[:1])
 
@@ -357,15 +362,21 @@ def tlc_job(arg):
 def run(tier, seed):
     v = Verdict(PID, tier, seed)
     # ---- the design: all interleavings, thread-local vs shared --------------
-    tl = parallel.run_jobs(tlc_job, [(w, sh) for w in PAIRS for sh in ('FALSE', 'TRUE')])
+    tl = parallel.run_jobs(tlc_job, [(w, sh) for w in PAIRS for sh in ('FALSE', 'TRUE')] +
+                           [('WorkRR', 'FALSE', 'TRUE')])
     solo_model = {}
     for r in tl:
-        v.tlc_runs.append(dict(run=f'Threads {r["work"]} SHARED={r["shared"]}',
+        v.tlc_runs.append(dict(run=f'Threads {r["work"]} SHARED={r["shared"]} METAREAD={r["metaread"]}',
                                distinct=r['distinct'], generated=r['generated'],
                                depth=r['depth'], wall_s=r['wall'], violated=r['violated']))
         v.states += r['distinct']
         v.transitions += r['generated']
-        if r['shared'] == 'FALSE':
+        if r['metaread'] == 'TRUE':
+            # the code before D61: callees read the shared function metadata
+            if r['violated'] != 'Isolation':
+                raise tlc.MachineryFailure('vacuous: Threads.tla WorkRR does not violate '
+                                           'Isolation with METAREAD')
+        elif r['shared'] == 'FALSE':
             if r['rc'] != 0:
                 raise tlc.MachineryFailure(f'Threads.tla {r["work"]} violates {r["violated"]} '
                                            'with thread-local namespaces')
@@ -382,6 +393,8 @@ def run(tier, seed):
         v.case(('solo', kind))
         if kind.startswith('Iter'):
             ok = abs(got[0] * SCALE - want[0]) < 1e-6 and got[1] == want[1]
+        elif kind.startswith('Ref'):
+            ok = got[0] == want[0]
         elif kind.startswith('Arr'):
             shape = (len(got), len(got[0])) if isinstance(got[0], tuple) else (1, len(got))
             ok = list(shape) == list(want)
@@ -390,9 +403,10 @@ def run(tier, seed):
         if not ok:
             v.note(f'spec-drift: solo {kind} on the code gives {got!r}, Threads.tla Solo = {want}')
     # ---- binding (b): schedules on real threads ------------------------------
-    kinds = ['IterA', 'IterB', 'Iter2', 'ArrA', 'ArrB', 'ArrIter', 'Plain', 'SetEval', 'RefA']
+    kinds = ['IterA', 'IterB', 'Iter2', 'ArrA', 'ArrB', 'ArrIter', 'Plain', 'SetEval', 'RefA', 'RefB']
     if tier == 'quick':
-        pairs = [('IterA', 'IterB'), ('IterA', 'ArrB'), ('ArrA', 'ArrB'), ('Iter2', 'ArrIter'),
+        pairs = [('RefA', 'RefB'),
+                 ('IterA', 'IterB'), ('IterA', 'ArrB'), ('ArrA', 'ArrB'), ('Iter2', 'ArrIter'),
                  ('IterB', 'Plain'), ('ArrA', 'Plain'), ('Iter2', 'SetEval'), ('ArrIter', 'IterA')]
         jobs = [(a, b, False, seed) for a, b in pairs] + [('IterA', 'Iter2', True, seed),
                                                             ('ArrB', 'IterB', True, seed)]
